@@ -306,6 +306,34 @@ impl Case {
         k
     }
 
+    /// key of ours that replaces the original key `old_pk` (same in every fixture)
+    fn derived_key(&mut self, old_pk: &[u8]) -> Key {
+        let sk = blake256(&[&b"pv-ledger rekey "[..], old_pk].concat());
+        let pk_obj = SecretKey::from(sk).public_key();
+        let mut pk = [0u8; 32];
+        pk.copy_from_slice(pk_obj.as_ref());
+        let k = Key { sk, pk };
+        self.keys.push(k.clone());
+        k
+    }
+
+    /// apply key-hash renamings found while re-keying other fixtures (shared stake keys, pool operators ...)
+    pub fn apply_renames(&mut self, renames: &[(Vec<u8>, Vec<u8>)]) {
+        for (o, n) in renames {
+            if self.renames.iter().any(|(x, _)| x == o) {
+                continue;
+            }
+            let mut hits = self.body_mut().replace_bytes(o, n);
+            for u in self.utxo.iter_mut() {
+                hits += u.out.replace_bytes(o, n);
+            }
+            if hits > 0 {
+                self.renames.push((o.clone(), n.clone()));
+            }
+        }
+        self.resign();
+    }
+
     /// Add a fresh key of ours (not yet used by any witness); returns it.
     pub fn new_key(&mut self, tag: &[u8]) -> Key {
         self.fresh_key(tag)
@@ -335,7 +363,7 @@ impl Case {
                 continue;
             }
             done.push(pk.clone());
-            let k = self.fresh_key(b"rekey");
+            let k = self.derived_key(&pk);
             let (oh, nh) = (blake224(&pk), blake224(&k.pk));
             self.renames.push((oh.to_vec(), nh.to_vec()));
             self.body_mut().replace_bytes(&oh, &nh);
@@ -507,6 +535,20 @@ impl Case {
 
 // --------------------------------------------------------------------- running
 
+/// location of the last panic caught in the code under test ("file:line"), recorded by our panic hook
+pub static PANIC_LOC: std::sync::Mutex<String> = std::sync::Mutex::new(String::new());
+
+/// install the location-recording (silent) panic hook; call once before running cases
+pub fn install_panic_hook() {
+    let _ = pv_core::catch(|| ()); // lets pv_core install its own hook first (Once)
+    std::panic::set_hook(Box::new(|info| {
+        let loc = info.location().map(|l| format!("{}:{}", l.file(), l.line())).unwrap_or_default();
+        if let Ok(mut g) = PANIC_LOC.lock() {
+            *g = loc;
+        }
+    }));
+}
+
 pub struct Outcome {
     /// "accept" | "reject" | "panic" | "undecodable"
     pub verdict: &'static str,
@@ -623,7 +665,11 @@ impl Case {
             let (verdict, detail) = match res {
                 Ok(Ok(())) => ("accept", String::new()),
                 Ok(Err(e)) => ("reject", format!("{e:?}")),
-                Err(p) => ("panic", p),
+                Err(p) => {
+                    let loc = PANIC_LOC.lock().map(|g| g.clone()).unwrap_or_default();
+                    let loc = loc.rsplit("/pallas-").next().map(|x| format!("pallas-{x}")).unwrap_or(loc);
+                    ("panic", format!("{p} @ {loc}"))
+                }
             };
             let proj = self.project(metx, &decoded, &env, &bytes);
             Ok(Outcome { verdict, detail, proj })
@@ -702,6 +748,7 @@ impl Case {
         let (mut n_ref, mut ref_missing) = (0, 0);
         let mut ref_scripts: Vec<String> = vec![];
         let mut ref_plutus = false;
+        let mut ref_langs: Vec<u64> = vec![];
         for i in metx.reference_inputs() {
             n_ref += 1;
             match find(i.hash(), i.index()) {
@@ -711,14 +758,17 @@ impl Case {
                         let h = match &s {
                             conway::ScriptRef::NativeScript(x) => x.compute_hash(),
                             conway::ScriptRef::PlutusV1Script(x) => {
+                                ref_langs.push(1);
                                 ref_plutus = true;
                                 x.compute_hash()
                             }
                             conway::ScriptRef::PlutusV2Script(x) => {
+                                ref_langs.push(2);
                                 ref_plutus = true;
                                 x.compute_hash()
                             }
                             conway::ScriptRef::PlutusV3Script(x) => {
+                                ref_langs.push(3);
                                 ref_plutus = true;
                                 x.compute_hash()
                             }
@@ -869,7 +919,7 @@ impl Case {
             }
             _ => json!({}),
         };
-        let mut langs_used = vec![];
+        let mut langs_used: Vec<u64> = vec![];
         if !metx.plutus_v1_scripts().is_empty() {
             langs_used.push(1)
         }
@@ -879,6 +929,9 @@ impl Case {
         if !metx.plutus_v3_scripts().is_empty() {
             langs_used.push(3)
         }
+        langs_used.extend(ref_langs.iter().copied());
+        langs_used.sort();
+        langs_used.dedup();
 
         json!({
             "era": self.era,
